@@ -1351,10 +1351,101 @@ class _TableDispatch(ast.NodeTransformer):
         return chain[0]
 
 
-def fold_static(func):
+def namedtuple_tables(mod: ast.Module) -> dict:
+    """name -> [field names] of the namedtuple types a module defines at its top level or in a class body:
+    `X = namedtuple("X", "a b" | ["a", "b"])` and `class X(NamedTuple): a: T ...`"""
+    out = {}
+
+    def scan(body):
+        for st in body:
+            if isinstance(st, ast.Assign) and len(st.targets) == 1 and isinstance(st.targets[0], ast.Name) and isinstance(st.value, ast.Call) \
+                    and ast.unparse(st.value.func) in ("namedtuple", "collections.namedtuple") and len(st.value.args) >= 2:
+                spec = st.value.args[1]
+                if isinstance(spec, ast.Constant) and isinstance(spec.value, str):
+                    out[st.targets[0].id] = spec.value.replace(",", " ").split()
+                elif isinstance(spec, (ast.List, ast.Tuple)) and all(isinstance(e, ast.Constant) and isinstance(e.value, str) for e in spec.elts):
+                    out[st.targets[0].id] = [e.value for e in spec.elts]
+            elif isinstance(st, ast.ClassDef):
+                if any(ast.unparse(b) in ("NamedTuple", "typing.NamedTuple") for b in st.bases):
+                    out[st.name] = [x.target.id for x in st.body if isinstance(x, ast.AnnAssign) and isinstance(x.target, ast.Name)]
+                else:
+                    scan(st.body)
+    scan(mod.body)
+    return out
+
+
+def namedtuples_as_tuples(func, table: dict):
+    """A local that is only ever bound to instances of ONE namedtuple type of `table` (`rec = T(*fields)`, `T._make(fields)`,
+    `T(a, b, c)`, through self / cls / a module too) is the plain tuple of its fields: the constructor becomes `tuple(fields)` / the
+    tuple literal in field order, and `rec.name` becomes `rec[k]`.  Records are then positions again, whatever they are called."""
+    if not table:
+        return func
+
+    def type_of(call):
+        if not isinstance(call, ast.Call):
+            return None, None
+        f = call.func
+        make = isinstance(f, ast.Attribute) and f.attr == "_make"
+        if make:
+            f = f.value
+        name = f.id if isinstance(f, ast.Name) else f.attr if isinstance(f, ast.Attribute) else None
+        return (name, make) if name in table else (None, None)
+
+    def as_tuple(call):
+        name, make = type_of(call)
+        fields = table[name]
+        if make:
+            if len(call.args) == 1 and not call.keywords:
+                return ast.Call(func=ast.Name(id="tuple", ctx=ast.Load()), args=[call.args[0]], keywords=[])
+            return None
+        if len(call.args) == 1 and isinstance(call.args[0], ast.Starred) and not call.keywords:
+            return ast.Call(func=ast.Name(id="tuple", ctx=ast.Load()), args=[call.args[0].value], keywords=[])
+        if any(isinstance(a, ast.Starred) for a in call.args) or any(k.arg is None for k in call.keywords):
+            return None
+        given = dict(zip(fields, call.args))
+        given.update({k.arg: k.value for k in call.keywords})
+        if len(call.args) > len(fields) or set(given) != set(fields):
+            return None
+        return ast.Tuple(elts=[given[f_] for f_ in fields], ctx=ast.Load())
+    binds = {}
+    for n in ast.walk(func):
+        if isinstance(n, ast.Name) and isinstance(n.ctx, (ast.Store, ast.Del)):
+            binds.setdefault(n.id, []).append(None)
+    for n in ast.walk(func):
+        if isinstance(n, (ast.Assign, ast.AnnAssign)) and n.value is not None:
+            tg = n.targets if isinstance(n, ast.Assign) else [n.target]
+            if len(tg) == 1 and isinstance(tg[0], ast.Name):
+                t, _ = type_of(n.value)
+                if t is not None and as_tuple(n.value) is not None:
+                    lst = binds[tg[0].id]
+                    lst[lst.index(None)] = t
+    params = {a.arg for a in func.args.posonlyargs + func.args.args + func.args.kwonlyargs}
+    recs = {v: ts[0] for v, ts in binds.items() if v not in params and ts and None not in ts and len(set(ts)) == 1}
+    if not recs:
+        return func
+
+    class T(ast.NodeTransformer):
+        def visit_Attribute(self, n):
+            self.generic_visit(n)
+            if isinstance(n.ctx, ast.Load) and isinstance(n.value, ast.Name) and n.value.id in recs and n.attr in table[recs[n.value.id]]:
+                return ast.copy_location(ast.Subscript(value=n.value, slice=ast.Constant(value=table[recs[n.value.id]].index(n.attr)), ctx=ast.Load()), n)
+            return n
+
+        def visit_Assign(self, n):
+            self.generic_visit(n)
+            if len(n.targets) == 1 and isinstance(n.targets[0], ast.Name) and n.targets[0].id in recs:
+                n.value = ast.copy_location(as_tuple(n.value), n.value)
+            return n
+    func.body = [T().visit(st) for st in func.body]
+    return ast.fix_missing_locations(func)
+
+
+def fold_static(func, namedtuples: dict | None = None):
     """partial evaluation of the literal part of `func` (in place; see the section comment).  Idempotent; a construct it cannot fold
-    safely is left as written."""
+    safely is left as written.  `namedtuples`: namedtuple_tables of the module (records become plain tuples first)."""
     try:
+        if namedtuples:
+            namedtuples_as_tuples(func, namedtuples)
         for _ in range(4):
             before = ast.dump(func)
             func.body = [_Fold().visit(st) for st in func.body]
